@@ -1377,8 +1377,8 @@ class TriaMesh:
             - 1
         )
         # lengths computation
-        p1 = np.squeeze(p[edge_idxs[:, 0]])
-        p2 = np.squeeze(p[edge_idxs[:, 1]])
+        p1 = np.squeeze(p[edge_idxs[:, 0]], axis=1)
+        p2 = np.squeeze(p[edge_idxs[:, 1]], axis=1)
         llength = np.sqrt(((p1 - p2) ** 2).sum(1)).sum()
         # compute path from unordered, not-directed edge list
         # and return path as list of points, and path length
